@@ -157,7 +157,35 @@ Definition pseudo_shape (n v : bytes) (f : field) : Prop :=
   (n = pn_status /\ exists k, status_parse v = Some k /\ f = FStatus k) \/
   (n = pn_protocol /\ utf8_valid v = true /\ exists x, protocol_from_str v = Some x /\ f = FProtocol x).
 
-(* a pseudo-header field line that Field::parse accepts is one of the six defined ones, with a parseable value *)
+Lemma assoc_bytes_in {V} k (l : list (bytes * V)) v : assoc_bytes k l = Some v -> In (k, v) l.
+Proof.
+  induction l as [|[k' v'] r IH]; [discriminate|]. cbn [assoc_bytes].
+  destruct (bytes_eqb k k') eqn:E.
+  - apply bytes_eqb_eq in E. subst. intros H. inversion H. left. reflexivity.
+  - intros H. right. apply IH. exact H.
+Qed.
+
+(* a pseudo-header field line that Field::parse accepts is one of the six defined ones, with a parseable value
+   (independent of the order of the match arms in the source) *)
+Lemma parse_pseudo_shape n k p v f :
+  In (n, (k, p)) pseudo_arms -> parse_pseudo k p v = Some f -> pseudo_shape n v f.
+Proof.
+  intros I H. unfold pseudo_arms in I. cbn [In] in I. unfold pseudo_shape.
+  unfold parse_pseudo in H. change try_value_utf8 with true in H.
+  repeat (destruct I as [I|I]; [inversion I; subst n k p; clear I|]); try contradiction; cbn [negb] in H;
+    try (destruct (utf8_valid v) eqn:U; cbn [negb] in H; [|discriminate]);
+    first
+    [ (* :method *) destruct (method_ok v) eqn:S; [|discriminate]; inversion H; left; repeat split; assumption
+    | (* :scheme *) destruct (scheme_ok v) eqn:S; [|discriminate]; inversion H; right; left; repeat split; assumption
+    | (* :authority *) destruct (authority_ok v) eqn:S; [|discriminate]; inversion H; right; right; left; repeat split; assumption
+    | (* :path *) destruct (path_parse v) as [q|e|s] eqn:S; try discriminate; inversion H; right; right; right; left;
+        repeat split; try assumption; exists q; split; reflexivity
+    | (* :status *) destruct (status_parse v) as [st|] eqn:S; [|discriminate]; inversion H;
+        right; right; right; right; left; split; [reflexivity|]; exists st; split; reflexivity
+    | (* :protocol *) destruct (protocol_from_str v) as [x|] eqn:S; [|discriminate]; inversion H;
+        right; right; right; right; right; repeat split; try assumption; exists x; split; reflexivity ].
+Qed.
+
 Lemma field_parse_pseudo n v f :
   field_parse n v = Ok f -> is_pseudo_name n = true -> hvalue_ok v = true /\ pseudo_shape n v f.
 Proof.
@@ -165,27 +193,10 @@ Proof.
   rewrite is_pseudo_name_cons. intros H Hc. change pseudo_prefix with 58 in H. rewrite Hc in H. cbn [negb] in H.
   change pseudo_value_checked with true in H. cbn [andb] in H.
   destruct (hvalue_ok v) eqn:Hv; cbn [negb] in H; [|discriminate]. split; [reflexivity|].
-  unfold pseudo_arms in H. cbn [assoc_bytes] in H. unfold pseudo_shape.
-  repeat match type of H with
-  | context [bytes_eqb (c :: r) ?k] =>
-      let E := fresh "E" in destruct (bytes_eqb (c :: r) k) eqn:E;
-      [apply bytes_eqb_eq in E; rewrite E in *; clear E|]
-  end;
-  try (change unknown_pseudo_is_error with true in H; discriminate);
-  unfold parse_pseudo in H; change try_value_utf8 with true in H; cbn [negb] in H.
-  - (* :scheme *) destruct (utf8_valid v) eqn:U; cbn [negb] in H; [|discriminate].
-    destruct (scheme_ok v) eqn:S; [|discriminate]. inversion H. right; left. repeat split; assumption.
-  - (* :authority *) destruct (utf8_valid v) eqn:U; cbn [negb] in H; [|discriminate].
-    destruct (authority_ok v) eqn:S; [|discriminate]. inversion H. right; right; left. repeat split; assumption.
-  - (* :path *) destruct (utf8_valid v) eqn:U; cbn [negb] in H; [|discriminate].
-    destruct (path_parse v) as [q|e|s] eqn:S; try discriminate. inversion H. right; right; right; left.
-    repeat split; try assumption. exists q. split; reflexivity.
-  - (* :method *) destruct (method_ok v) eqn:S; [|discriminate]. inversion H. left. repeat split; assumption.
-  - (* :status *) destruct (status_parse v) as [k|] eqn:S; [|discriminate]. inversion H.
-    right; right; right; right; left. split; [reflexivity|]. exists k. split; reflexivity.
-  - (* :protocol *) destruct (utf8_valid v) eqn:U; cbn [negb] in H; [|discriminate].
-    destruct (protocol_from_str v) as [x|] eqn:S; [|discriminate]. inversion H.
-    right; right; right; right; right. repeat split; try assumption. exists x. split; reflexivity.
+  destruct (assoc_bytes (c :: r) pseudo_arms) as [[k p]|] eqn:A;
+    [|change unknown_pseudo_is_error with true in H; discriminate].
+  destruct (parse_pseudo k p v) as [f'|] eqn:PP; [|discriminate]. inversion H; subst f'.
+  eapply parse_pseudo_shape; [apply assoc_bytes_in; exact A|exact PP].
 Qed.
 
 Lemma known_protocols_gen v x : protocol_from_str v = Some x -> memb v known_protocols = true.
@@ -1006,7 +1017,8 @@ Qed.
 Lemma valid_map_regular m : Forall (fun e => hname_ok (fst e) = true) m -> regular_map m.
 Proof. unfold regular_map. intros H. rewrite Forall_forall in *. intros e I. apply hname_ok_not_pseudo. apply H. exact I. Qed.
 
-Ltac solve_subseq := cbn; repeat first [exact I | left; split; [reflexivity|] | right].
+Ltac solve_subseq :=
+  cbn [map fst]; repeat (constructor; [cbn; intros HN; repeat (destruct HN as [HN|HN]; [discriminate HN|]); exact HN|]); constructor.
 
 (* the path Pseudo::request writes *)
 Definition sent_path (u : uri) : bytes := pq_as_str (u_path u).
